@@ -197,38 +197,7 @@ func checkC04(c *Ctx, r *Report) {
 		r.count("readset_functions_scanned", n)
 	}
 
-	// IsSecurityNameInSecuritySchemes is a membership test on SecurityName
-	if fi := need(c, r, "C04.b", "generator/swagen/swagtool.IsSecurityNameInSecuritySchemes"); fi != nil {
-		viol := ""
-		var sites []string
-		nTrue := 0
-		for _, ex := range exitsOf(fi.SSA) {
-			if ex.Ret == nil {
-				continue
-			}
-			sites = append(sites, w.pos(retPos(ex)))
-			if isBoolConst(ex.Ret.Results[0], true) {
-				nTrue++
-				ok := false
-				for _, f := range dominatingFacts(ex.Block) {
-					cnd, pol := unwrapNot(f.Cond, f.Pol)
-					if bo, isB := cnd.(*ssa.BinOp); isB && bo.Op == token.EQL && pol {
-						a := sliceOf(cnd)
-						if a.hasFieldNamed("SecurityName") && len(a.Params) >= 2 {
-							ok = true
-						}
-					}
-				}
-				if !ok {
-					viol = fmt.Sprintf("%s: returns true without comparing a scheme's SecurityName with the requested name", w.pos(retPos(ex)))
-				}
-			}
-		}
-		if nTrue != 1 {
-			viol = fmt.Sprintf("expected one `return true`, found %d", nTrue)
-		}
-		r.add("C04.b", "guardedby", fi.Key+":membership", "a scheme name is 'declared' only if some configured scheme has exactly that SecurityName", []string{fi.Key}, sites, viol)
-	}
+	checkSchemeMembership(c, r, "C04.b")
 
 	checkEnforceFlag(c, r)
 
@@ -673,4 +642,42 @@ func swagtoolSorters(w *World) []string {
 		}
 	}
 	return dedupSortedPlain(out)
+}
+
+// checkSchemeMembership (C04.b / C08.f): a scheme name counts as declared only on an exact match.
+func checkSchemeMembership(c *Ctx, r *Report, clause string) {
+	w := c.W
+	// IsSecurityNameInSecuritySchemes is a membership test on SecurityName
+	if fi := need(c, r, clause, "generator/swagen/swagtool.IsSecurityNameInSecuritySchemes"); fi != nil {
+		viol := ""
+		var sites []string
+		nTrue := 0
+		for _, ex := range exitsOf(fi.SSA) {
+			if ex.Ret == nil {
+				continue
+			}
+			sites = append(sites, w.pos(retPos(ex)))
+			if isBoolConst(ex.Ret.Results[0], true) {
+				nTrue++
+				ok := false
+				for _, f := range dominatingFacts(ex.Block) {
+					cnd, pol := unwrapNot(f.Cond, f.Pol)
+					if bo, isB := cnd.(*ssa.BinOp); isB && bo.Op == token.EQL && pol {
+						a := sliceOf(cnd)
+						if a.hasFieldNamed("SecurityName") && len(a.Params) >= 2 {
+							ok = true
+						}
+					}
+				}
+				if !ok {
+					viol = fmt.Sprintf("%s: returns true without comparing a scheme's SecurityName with the requested name", w.pos(retPos(ex)))
+				}
+			}
+		}
+		if nTrue != 1 {
+			viol = fmt.Sprintf("expected one `return true`, found %d", nTrue)
+		}
+		r.add(clause, "guardedby", fi.Key+":membership", "a scheme name is 'declared' only if some configured scheme has exactly that SecurityName", []string{fi.Key}, sites, viol)
+	}
+
 }
